@@ -44,7 +44,7 @@ func main() {
 	worker.Run(r, worker.Opts{Phase: "multi", Total: r.N(300, 6000), Batch: 25, Timeout: 20 * time.Minute})
 	if bin := os.Getenv("VERIF_RACE_BIN"); bin != "" {
 		raceDir, _ := os.MkdirTemp("", "verif-c02-race-")
-		defer os.RemoveAll(raceDir)
+		r.Cleanup(func() { os.RemoveAll(raceDir) })
 		worker.Run(r, worker.Opts{Phase: "race", Total: r.N(80, 1000), Batch: 20, Bin: bin, Timeout: 30 * time.Minute,
 			Env: []string{"GORACE=halt_on_error=0 log_path=" + filepath.Join(raceDir, "race")}})
 		mon.ReportRaces(r, raceDir)
